@@ -362,11 +362,7 @@ func (c *Compiler) Compile(node parser.Node) error {
 
 	switch node := node.(type) {
 	case *parser.File:
-		for _, stmt := range node.Stmts {
-			if err := c.Compile(stmt); err != nil {
-				return err
-			}
-		}
+		return c.compileFile(node)
 	case *parser.ExprStmt:
 		if err := c.Compile(node.Expr); err != nil {
 			return err
@@ -481,6 +477,28 @@ func (c *Compiler) Compile(node parser.Node) error {
 	case nil:
 	default:
 		return c.errorf(node, `%[1]T "%[1]v" not implemented`, node)
+	}
+	return nil
+}
+
+// compileFile compiles the statements of a file. An instruction operand that
+// is out of range (operandError panic of emit/changeOperand) is returned as an
+// error, also when the Compiler is used directly and not through Compile().
+func (c *Compiler) compileFile(node *parser.File) (err error) {
+	defer func() {
+		if r := recover(); r != nil {
+			oe, ok := r.(*operandError)
+			if !ok {
+				panic(r)
+			}
+			err = oe.err
+		}
+	}()
+
+	for _, stmt := range node.Stmts {
+		if err := c.Compile(stmt); err != nil {
+			return err
+		}
 	}
 	return nil
 }
